@@ -183,6 +183,75 @@ def run(ctx):
         if not ok:
             r3.violate("C15|R3|%s" % name, "%s builds multipart delimiters / the boundary parameter from %s; writers must share one constant (%s)" % (name, sorted(found), sorted(allv)), F.fns[name].file, F.fns[name].span["line"], name)
 
+    # ---- R3b the writer's `boundary=` parameter is what the reader splits on
+    r3b = chk.rule("R3b-boundary-parameter-agrees", "the multipart Content-Type the serialisers write (a join of constants) contains the literal the reader's boundary extraction splits on, followed by the delimiter constant", floor=2)
+    reader_lits = set()
+    for rn, rf in F.fns.items():
+        if rf.crate == "rws" and rn.endswith("::extract_boundary"):
+            rdu = du_of(rf)
+            for _, t in rf.calls():
+                if (callee_name(t) or "").endswith(("::split_once", "::split", "::find", "::strip_prefix")) and len(t["args"]) >= 2:
+                    v = rdu.val_operand(t["args"][1])
+                    if v[0] == "const" and isinstance(v[1], str) and v[1]:
+                        reader_lits.add(v[1])
+
+    def const_text(du, v, depth=0):
+        """the text of a join / concat of constants, None when something is not constant"""
+        if depth > 8:
+            return None
+        if v[0] == "const":
+            return v[1] if isinstance(v[1], str) else None
+        if v[0] == "cast":
+            return const_text(du, v[2], depth + 1)
+        if v[0] == "aggregate" and v[1] == "array":
+            parts = [const_text(du, e, depth + 1) for e in v[3]]
+            return None if any(x is None for x in parts) else parts
+        if v[0] in ("ref", "place"):
+            vv = du.val_place((v[1][0], tuple(e for e in v[1][1] if e != "*")))
+            return const_text(du, vv, depth + 1) if vv != v and vv[0] != "place" else None
+        if v[0] == "call" and v[1] and v[2] and re.search(r"slice::<impl \[\w+\]>::(join|concat)$", v[1]):
+            parts = const_text(du, v[2][0], depth + 1)
+            sep = const_text(du, v[2][1], depth + 1) if v[1].endswith("::join") and len(v[2]) > 1 else ""
+            if isinstance(parts, list) and isinstance(sep, str):
+                return sep.join(parts)
+            return None
+        if v[0] == "call" and v[1] and v[2] and v[1].endswith(("::to_string", "::to_owned", "::into", "::from")):
+            return const_text(du, v[2][0], depth + 1)
+        return None
+    if not reader_lits:
+        r3b.violate("C15|R3b|anchor-missing", "the reader's boundary extraction (a split on a constant) was not found")
+    for sname in SERIALISERS:
+        fn0 = F.fns.get(sname)
+        if fn0 is None:
+            continue
+        fi = ctx.inl(fn0)
+        sdu = du_of(fi)
+        texts = []
+        for _, _, nv, vv in header_aggregates(fi):
+            if const_str(nv) == "Content-Type":
+                tx = const_text(sdu, vv)
+                if isinstance(tx, str) and "/" in tx:
+                    texts.append(tx)
+        if not texts:
+            # the array of constants handed to join("") is usually promoted to a constant of its own: read the promoted bodies
+            owners_ = {sname} | set(IN_INFO.get(id(fi), {}).get("callees", []))
+            for pn, pf in F.fns.items():
+                if pf.kind == "Promoted" and any(pn.startswith(o_ + "::{promoted#") for o_ in owners_):
+                    pdu = du_of(pf)
+                    for b_ in pf.blocks:
+                        for st_ in b_["stmts"]:
+                            if st_["k"] == "assign" and st_["rv"]["k"] == "aggregate" and st_["rv"].get("agg") == "array":
+                                parts = [pdu.val_operand(o_) for o_ in st_["rv"]["ops"]]
+                                if parts and all(x[0] == "const" and isinstance(x[1], str) for x in parts):
+                                    tx = "".join(x[1] for x in parts)
+                                    if tx.startswith("multipart/"):
+                                        texts.append(tx)
+        for tx in texts:
+            ok = any(l_ in tx and tx.index(l_) + len(l_) < len(tx) for l_ in reader_lits)
+            r3b.instance({"serialiser": sname, "multipart_content_type": tx, "reader_splits_on": sorted(reader_lits)}, ok)
+            if not ok:
+                r3b.violate("C15|R3b|%s" % sname, "%s writes the multipart Content-Type %r, which does not contain what the reader splits on (%s): the boundary of a response the library wrote cannot be found when it is read back" % (sname, tx, sorted(reader_lits)), fn0.file, fn0.span["line"], sname)
+
     # ---- R4 status list exhaustive
     r4 = chk.rule("R4-status-list-exhaustive", "the registered-status list used by the parser contains every field of the status struct exactly once", floor=1)
     lf = F.fns.get("response::Response::status_code_reason_phrase_list")
